@@ -1121,23 +1121,22 @@ theorem mem_map_opts {l : List OptDecl} {f : OptDecl → String} {n v : String}
   cases h2
   exact ⟨od, h1, rfl, rfl⟩
 
-theorem visitCst_refines (c : Cst) (h : WFFlat c) (ha : Agree c) :
-    wlp (visitCst c) (fun _ s' => schemaOf s' = specOf c ∧ (specOf c).isSome = true) {} := by
-  rw [wlp_visitCst, metaLoop_eq, optLoop_eq]
-  refine wlp_mono (metaLoop_ref (c.defs.flatMap entriesOf) {} {} [] Inv.empty rfl ⟨rfl, rfl⟩ trivial ?_
-    (by simpa [metaNames, metaEntries] using h.metaNodup)) ?_
-  · intro e he
-    obtain ⟨d, rfl, hty⟩ := h.metaDecl e he
-    exact ⟨d, rfl, hty, ha.metaTy _ he d rfl⟩
-  intro _ s1 ⟨hi1, hd1, hn1, hm1, ho1, hr1⟩
-  have hr1' : MetaRel s1 s1.metas (metasOf c) := by rw [metasOf_eq]; exact hr1
+/-- options, packets and `ResolveDependencies`, from a state in which the MetaData entries are registered and stand for
+`metasOf c` (shared by every fragment whose packets are flat) -/
+theorem refines_tail (c : Cst) (hoptOK : ∀ od, od ∈ optDecls c → OptOK od)
+    (hoptNd : ((optDecls c).map (·.name.text)).Nodup) (hpktNd : (packetNames c.defs).Nodup) (hroot : rootCount c.defs ≤ 1)
+    (hpk : ∀ p, TopDef.packet p ∈ c.defs → FlatPacket (metaNames c) p) (ha : Agree c)
+    (s1 : VState) (hi1 : Inv s1) (hd1 : s1.diags = []) (hn1 : NoPk s1)
+    (hm1 : s1.metas.map (·.name) = metaNames c) (ho1 : s1.options = []) (hr1' : MetaRel s1 s1.metas (metasOf c)) :
+    wlp (c.defs.forM optStep) (fun _ s2 => wlp (c.defs.forM packetStep) (fun _ s3 =>
+      wlp resolveDeps (fun _ s' => schemaOf s' = specOf c ∧ (specOf c).isSome = true) s3) s2) s1 := by
+  rw [optLoop_eq]
   have hme : MetaExact (metaNames c) s1 := by
     intro n
     rw [findMeta_isSome_iff, hm1]
-    simp [metaNames, metaEntries]
-  refine wlp_mono (optLoop_ref (c.defs.flatMap declsOf) s1 h.optOK ?_) ?_
+  refine wlp_mono (optLoop_ref (c.defs.flatMap declsOf) s1 hoptOK ?_) ?_
   · rw [ho1]
-    simpa [optDecls] using h.optNodup
+    simpa [optDecls] using hoptNd
   intro _ s2 e2
   have hopt2 : s2.options = (optDecls c).map fun od => (od.name.text, optValueOf od) := by
     rw [e2]
@@ -1154,10 +1153,10 @@ theorem visitCst_refines (c : Cst) (h : WFFlat c) (ha : Agree c) :
     · exact Pres.of_eq rfl
     · exact PresP.of_eq rfl
   refine wlp_mono (packetLoop_ref (configOf (optionsOf c)) (metaNames c) (metasOf c) c.defs s2 s2 [] ⟨hi2, rfl, ?_⟩
-    (by rw [hn2.1]; rfl) hme2 hr2 h.packets ha.fields ?_ ?_) ?_
+    (by rw [hn2.1]; rfl) hme2 hr2 hpk ha.fields ?_ ?_) ?_
   · intro p hp; rw [hn2.1] at hp; cases hp
-  · rw [hn2.1]; simpa using h.pktNodup
-  · rw [hn2.2]; simpa using h.oneRoot
+  · rw [hn2.1]; simpa using hpktNd
+  · rw [hn2.2]; simpa using hroot
   intro _ s3 ⟨q, ho3, ps, hps, hspec⟩
   refine wlp_mono (resolveDeps_quiet s3 q.quiet) ?_
   intro _ s4 e
@@ -1167,7 +1166,7 @@ theorem visitCst_refines (c : Cst) (h : WFFlat c) (ha : Agree c) :
     intro n v hnv
     rw [ho3, hopt2] at hnv
     obtain ⟨od, h1, h2, h3⟩ := mem_map_opts hnv
-    obtain ⟨vals, hv1, hv2⟩ := h.optOK od h1
+    obtain ⟨vals, hv1, hv2⟩ := hoptOK od h1
     exact ⟨vals, by rw [← h2]; exact hv1, by rw [← h3]; exact hv2⟩
   have hnul : s3.options.lookup "FixedStringPadChar" ≠ some "'\x00'" := by
     intro hl
@@ -1193,6 +1192,20 @@ theorem visitCst_refines (c : Cst) (h : WFFlat c) (ha : Agree c) :
     rw [flatten_map_singleton]
   rw [hschema, hspec']
   exact ⟨rfl, rfl⟩
+
+theorem visitCst_refines (c : Cst) (h : WFFlat c) (ha : Agree c) :
+    wlp (visitCst c) (fun _ s' => schemaOf s' = specOf c ∧ (specOf c).isSome = true) {} := by
+  rw [wlp_visitCst, metaLoop_eq, optLoop_eq]
+  refine wlp_mono (metaLoop_ref (c.defs.flatMap entriesOf) {} {} [] Inv.empty rfl ⟨rfl, rfl⟩ trivial ?_
+    (by simpa [metaNames, metaEntries] using h.metaNodup)) ?_
+  · intro e he
+    obtain ⟨d, rfl, hty⟩ := h.metaDecl e he
+    exact ⟨d, rfl, hty, ha.metaTy _ he d rfl⟩
+  intro _ s1 ⟨hi1, hd1, hn1, hm1, ho1, hr1⟩
+  have h0 := refines_tail c h.optOK h.optNodup h.pktNodup h.oneRoot h.packets ha s1 hi1 hd1 hn1
+    (by rw [hm1]; simp [metaNames, metaEntries]) ho1 (by rw [metasOf_eq]; exact hr1)
+  rw [optLoop_eq] at h0
+  exact h0
 
 /-- **Refinement, flat fragment.**  On a well-formed file of the flat fragment (under the side conditions `Agree`) the
 state the visitor model ends in stands for exactly the schema of the declarative reading, and there is one. -/
